@@ -27,67 +27,47 @@ pub fn parse_datetime(s: &str) -> Result<(NaiveDateTime, NaiveDateTime), String>
 
     match DATE_REGEX.captures(s) {
         Some(cap) => {
-            let year: i32 = cap[1].parse().unwrap();
-            let month: u32 = cap[3].parse().unwrap();
-            let day: u32 = cap[5].parse().unwrap();
+            let err = || "Error parsing date/time value: ".to_string() + s;
+            let num = |idx: usize| -> Result<Option<u32>, String> {
+                match cap.get(idx) {
+                    Some(val) => val.as_str().parse::<u32>().map(Some).map_err(|_| err()),
+                    None => Ok(None),
+                }
+            };
 
-            let hour_start: u32;
-            let hour_finish: u32;
-            match cap.get(6) {
-                Some(val) => {
-                    hour_start = val.as_str().parse().unwrap();
-                    hour_finish = hour_start;
-                }
-                None => {
-                    hour_start = 0;
-                    hour_finish = 23;
-                }
-            }
+            let year: i32 = cap[1].parse().map_err(|_| err())?;
+            let month: u32 = num(3)?.ok_or_else(err)?;
+            let day: u32 = num(5)?.ok_or_else(err)?;
 
-            let min_start: u32;
-            let min_finish: u32;
-            match cap.get(7) {
-                Some(val) => {
-                    min_start = val.as_str().parse().unwrap();
-                    min_finish = min_start;
-                }
-                None => {
-                    min_start = 0;
-                    min_finish = 59;
-                }
-            }
+            let (hour_start, hour_finish) = match num(6)? {
+                Some(val) => (val, val),
+                None => (0, 23),
+            };
 
-            let sec_start: u32;
-            let sec_finish: u32;
-            match cap.get(8) {
-                Some(val) => {
-                    sec_start = val.as_str().parse().unwrap();
-                    sec_finish = sec_start;
-                }
-                None => {
-                    sec_start = 0;
-                    sec_finish = 59;
-                }
-            }
+            let (min_start, min_finish) = match num(7)? {
+                Some(val) => (val, val),
+                None => (0, 59),
+            };
+
+            let (sec_start, sec_finish) = match num(8)? {
+                Some(val) => (val, val),
+                None => (0, 59),
+            };
 
             match Local.with_ymd_and_hms(year, month, day, 0, 0, 0) {
                 LocalResult::Single(date) => {
                     let start = date
                         .naive_local()
                         .with_hour(hour_start)
-                        .unwrap()
-                        .with_minute(min_start)
-                        .unwrap()
-                        .with_second(sec_start)
-                        .unwrap();
+                        .and_then(|d| d.with_minute(min_start))
+                        .and_then(|d| d.with_second(sec_start))
+                        .ok_or_else(err)?;
                     let finish = date
                         .naive_local()
                         .with_hour(hour_finish)
-                        .unwrap()
-                        .with_minute(min_finish)
-                        .unwrap()
-                        .with_second(sec_finish)
-                        .unwrap();
+                        .and_then(|d| d.with_minute(min_finish))
+                        .and_then(|d| d.with_second(sec_finish))
+                        .ok_or_else(err)?;
 
                     Ok((start, finish))
                 }
@@ -119,7 +99,9 @@ pub fn parse_datetime(s: &str) -> Result<(NaiveDateTime, NaiveDateTime), String>
                     _ => Err("Error parsing date/time value: ".to_string() + s),
                 }
             } else if s.len() >= 2 && (s.starts_with("+") || s.starts_with("-")) {
-                let days = s.parse::<i64>().unwrap();
+                let days = s
+                    .parse::<i64>()
+                    .map_err(|_| "Error parsing date/time value: ".to_string() + s)?;
                 let date = Local::now().date_naive() + Duration::days(days);
                 let start = date.and_hms_opt(0, 0, 0).unwrap();
                 let finish = date.and_hms_opt(23, 59, 59).unwrap();
